@@ -232,27 +232,18 @@ def check(ctx):
             if n['k'] in ('BinaryOperator', 'CompoundAssignOperator') and n.get('op') in ('=', '^='):
                 comp = short(strip_casts(kids(n)[0]).get('ref', {}).get('n', ''))
                 inc.setdefault(comp, set()).add((n['op'], _table(f, kids(n)[1]), _guard_kind(f, n)))
-    scr = {}
-    for n in init.all_nodes():
-        if n['k'] in ('BinaryOperator', 'CompoundAssignOperator') and n.get('op') in ('=', '^='):
-            comp = short(strip_casts(kids(n)[0]).get('ref', {}).get('n', ''))
-            scr.setdefault(comp, set()).add(_table(init, kids(n)[1]))
+    cov = _init_cover(p, init)
+    want_cov = {'side': 'BLACK', 'castling': True, 'ep': True, 'pieces': 'each of the 12 pieces once: pawns into the pawn key, others into the piece key, every list entry'}
+    ctx.ob('C04.R2.init-cover', 'HashKey::init', cov == want_cov,
+           'init XORs SIDE_HASH iff Black is to move, CASTLING_HASH[rights], ENPASSANT_HASH[file of the e.p. square] only when a square is set, '
+           'and PIECE_HASH[piece][square] for every list entry of each of the twelve pieces, pawns into the pawn key and the others into the '
+           'piece key (directly or through toggle_piece) — found %s' % cov, site=init.loc())
+    inc_tables = {k: set(t for op, t, g in v if t != '0') for k, v in inc.items()}
     want_scr = {'_color_key': {'SIDE_HASH'}, '_pawn_key': {'PIECE_HASH[piece][sq]'}, '_piece_key': {'PIECE_HASH[piece][sq]'},
                 '_castling_key': {'CASTLING_HASH[rights]'}, '_enpassant_key': {'ENPASSANT_HASH[file]'}}
-    ctx.ob('C04.R2.init-triples', 'HashKey::init', scr == want_scr,
-           'HashKey::init folds each component from its own table with the index kind of the incremental API (%s)'
-           % {k: sorted(v) for k, v in scr.items()}, site=init.loc())
-    inc_tables = {k: set(t for op, t, g in v if t != '0') for k, v in inc.items()}
     ctx.ob('C04.R2.incremental-triples', 'HashKey mutators', inc_tables == want_scr,
            'the incremental mutators use the same (component, table, index) triples as init (%s)'
            % {k: sorted(v) for k, v in inc_tables.items()}, site=init.loc())
-    # init covers: SIDE iff BLACK; both colours x pawn ; both colours x 5 other kinds; counts from number_of_pieces
-    cov = _init_cover(p, init)
-    ctx.ob('C04.R2.init-cover', 'HashKey::init', cov == {'side': 'BLACK', 'pawn_colors': [0, 1], 'other_colors': [0, 1],
-                                                         'other_kinds': [2, 3, 4, 5, 6], 'bounded_by_count': True,
-                                                         'ep_guard': True},
-           'init covers SIDE_HASH iff black to move, pawns of both colours into the pawn key, N,B,R,Q,K of both colours into '
-           'the piece key, all list entries, and the e.p. file only when a square is set (%s)' % cov, site=init.loc())
 
     # ---- R3 pawn key purity ----------------------------------------------------------------------------
     pk_w = [(f, n) for f, n, k in p.field_accesses(HK, '_pawn_key') if k in ('write', 'rmw', 'addr')]
@@ -351,41 +342,94 @@ def _guard_kind(f, n):
 
 
 def _init_cover(p, init):
+    """what HashKey::init folds into the key, independent of how its loops are arranged: every site that XORs a
+    component (or calls the incremental toggle_piece) is evaluated for each binding of the enclosing range-for
+    loops over constant lists"""
     from rules.common import guard_facts
+    from rules.norm import Norm
+    pe = p.enum('engine::Piece')
+    pk = p.enum('engine::PieceKind')
     out = {}
+    routed = []           # (piece value, component)
+    shape_ok = True
+
+    def bindings(n):
+        """[env] over the enclosing range-for loops with constant initializer lists"""
+        envs = [{}]
+        for a in init.ancestors(n):
+            if a['k'] == 'CXXForRangeStmt':
+                vals = [x['cv'] for x in walk(a['ch'][0]) if x.get('ref', {}).get('k') == 'Enum' and 'cv' in x]
+                var = [x for x in walk(a['ch'][5]) if x['k'] == 'VarDecl']
+                if len(var) != 1 or not vals:
+                    return None
+                envs = [dict(e, **{var[0]['name']: v}) for e in envs for v in vals]
+        return envs
+
+    def list_loop(n, pexpr, sexpr):
+        """the site runs for i = 0 .. number_of_pieces(P)-1 and takes the square piece_position(P, i)"""
+        nm = Norm(init)
+        for a in init.ancestors(n):
+            if a['k'] == 'ForStmt':
+                from rules.common import counting_for, for_init_const
+                cf = counting_for(init, a)
+                if not cf or for_init_const(a) != 0 or cf[2] != '<':
+                    return False
+                iv = [x for x in walk(a['ch'][0]) if x['k'] == 'VarDecl'][0]['name']
+                P = nm.s(pexpr)
+                return nm.s(cf[1]) == 'position.number_of_pieces(%s)' % P and nm.s(sexpr) == 'position.piece_position(%s,%s)' % (P, iv)
+        return False
+
     for n in init.all_nodes():
+        comp = None
+        pexpr = sexpr = None
         if n['k'] == 'CompoundAssignOperator' and n.get('op') == '^=':
             comp = short(strip_casts(kids(n)[0]).get('ref', {}).get('n', ''))
-            gf = guard_facts(init, n)
+            e = strip_casts(kids(n)[1])
+            gf = Norm(init).facts(guard_facts(init, n))
             if comp == '_color_key':
-                for c, t in gf:
-                    s = canon(init, c)
-                    if s == '(position.color()==BLACK)' and t:
-                        out['side'] = 'BLACK'
+                if canon(init, e) == 'SIDE_HASH' and gf == frozenset({('in', 'position.color()', frozenset({1}))}):
+                    out['side'] = 'BLACK'
+                continue
+            if comp == '_castling_key':
+                out['castling'] = Norm(init).s(e) == 'CASTLING_HASH[position.castling_rights()]' and not gf
+                continue
             if comp == '_enpassant_key':
-                out['ep_guard'] = any(canon(init, c) == '(position.enpassant_square()==NO_SQUARE)' and not t or
-                                      canon(init, c) == '(position.enpassant_square()!=NO_SQUARE)' and t for c, t in gf)
+                out['ep'] = Norm(init).s(e) == 'ENPASSANT_HASH[file(position.enpassant_square())]' and \
+                    gf == frozenset({('in', 'position.enpassant_square()', frozenset(range(64)))})
+                continue
             if comp in ('_pawn_key', '_piece_key'):
-                # enclosing range-for loops over initializer lists
-                cols, kinds = None, None
-                bounded = False
-                for a in init.ancestors(n):
-                    if a['k'] == 'CXXForRangeStmt':
-                        vals = sorted(set(x['cv'] for x in walk(a['ch'][0]) if x.get('ref', {}).get('k') == 'Enum' and 'cv' in x))
-                        var = [x for x in walk(a['ch'][5]) if x['k'] == 'VarDecl']
-                        vn = var[0]['name'] if var else ''
-                        if 'color' in vn:
-                            cols = vals
-                        else:
-                            kinds = vals
-                    if a['k'] == 'ForStmt':
-                        cnd = canon(init, a['ch'][2], inline=False)
-                        bounded = cnd == '(i<position.number_of_pieces(piece))'
-                if comp == '_pawn_key':
-                    out['pawn_colors'] = cols
-                    pd = [x for x in walk(init.body) if x['k'] == 'VarDecl' and x.get('name') == 'piece']
+                if e['k'] == 'ArraySubscriptExpr' and strip_casts(kids(e)[0])['k'] == 'ArraySubscriptExpr' and \
+                        canon(init, kids(strip_casts(kids(e)[0]))[0]) == 'PIECE_HASH':
+                    pexpr, sexpr = kids(strip_casts(kids(e)[0]))[1], kids(e)[1]
                 else:
-                    out['other_colors'] = cols
-                    out['other_kinds'] = kinds
-                out['bounded_by_count'] = out.get('bounded_by_count', True) and bounded
+                    shape_ok = False
+                    continue
+        elif n.get('callee', {}).get('n') == 'engine::HashKey::toggle_piece':
+            comp = 'toggle'
+            pexpr, sexpr = kids(n)[1], kids(n)[2]
+        if pexpr is None:
+            continue
+        envs = bindings(n)
+        if envs is None or not list_loop(n, pexpr, sexpr):
+            shape_ok = False
+            continue
+        gfn = [a for a in Norm(init).facts(guard_facts(init, n)) if 'number_of_pieces' not in str(a) and '__begin' not in str(a)
+               and 'CXXRewrittenBinaryOperator' not in str(a) and a[0] != '<']
+        if gfn:
+            shape_ok = False
+        for env in envs:
+            pv = Norm(init, env).cval(pexpr)
+            if pv is None:
+                shape_ok = False
+                continue
+            kind = (pv - 1) % 6 + 1 if pv else 0
+            if comp == 'toggle':
+                routed.append((pv, '_pawn_key' if kind == pk['PAWN'] else '_piece_key'))     # toggle_piece's own routing is C04.R3
+            else:
+                routed.append((pv, comp))
+    want = sorted((v, '_pawn_key' if k.endswith('_PAWN') else '_piece_key') for k, v in pe.items() if k != 'NO_PIECE')
+    if shape_ok and sorted(routed) == want:
+        out['pieces'] = 'each of the 12 pieces once: pawns into the pawn key, others into the piece key, every list entry'
+    else:
+        out['pieces'] = 'routed %s (recognised: %s)' % (sorted(routed), shape_ok)
     return out
